@@ -214,9 +214,10 @@ class Translator:
                 out.append(z3.Implies(l == r, v1 == v2))
                 if name in mono:
                     if _is1(q1) and _is1(q2):
-                        out.append((l < r) == (v1 < v2))
+                        out += [(l < r) == (v1 < v2), (l > r) == (v1 > v2)]
                     else:
-                        out.append(z3.Implies(z3.And(q1 > 0, q2 > 0), (l < r) == (v1 < v2)))
+                        out.append(z3.Implies(q1 * q2 > 0, z3.And((l < r) == (v1 < v2), (l > r) == (v1 > v2))))
+                        out.append(z3.Implies(q1 * q2 < 0, z3.And((l < r) == (v1 > v2), (l > r) == (v1 < v2))))
         byarg = {}
         for name, lst in self.atoms.items():
             for (v, p, q, a) in lst:
